@@ -668,13 +668,15 @@ pub(crate) fn shr(lhs: Number, rhs: Number, arena: &mut Arena) -> Result<Number,
                 }
             };
 
-            let mut res = Integer::from(&*lhs >> rhs);
-
-            // >> floors: a negative number never shifts to 0 (the bignum
-            // library yields 0 once every bit is shifted out)
-            if res.is_zero() && lhs.is_negative() {
-                res = Integer::from(-1);
-            }
+            // >> floors. For a negative number shift its complement, which is
+            // non-negative: floor(x / 2^n) = -((-x - 1) >> n) - 1. (The bignum
+            // library's own >> on negative numbers does not always floor.)
+            let res = if lhs.is_negative() {
+                let complement: Integer = -(&*lhs) - Integer::ONE;
+                -Integer::from(complement >> rhs) - Integer::ONE
+            } else {
+                Integer::from(&*lhs >> rhs)
+            };
 
             Ok(Number::arena_from(res, arena))
         }
